@@ -823,6 +823,38 @@ def _opd_wire(o, with_vals):
     return f"(py {ser.const(o[1])})"
 
 
+_CMP_OPS = ("equal", "not_equal", "less", "less_equal", "greater", "greater_equal")
+
+
+def _cmp_operand_dtype(o1, o2):
+    """the type NumPy compares in (own computation with NumPy's promotion): `_compare` casts typed operands to it,
+    because the generated C would otherwise apply C's usual arithmetic conversions"""
+    typed = [np.dtype(o[2]) if o[0] == "arr" else np.dtype(type(o[1])) for o in (o1, o2) if o[0] in ("arr", "np")]
+    py = [o[1] for o in (o1, o2) if o[0] == "py"]
+    if not typed:
+        return None
+    od = np.result_type(*typed, *py)
+    for x in py:
+        if isinstance(x, int) and not isinstance(x, bool) and od.kind in "iu" \
+                and not (np.iinfo(od).min <= x <= np.iinfo(od).max) and np.min_scalar_type(x).kind in "iu":
+            od = np.result_type(od, np.min_scalar_type(x))
+    return None if od == np.bool_ else od
+
+
+def _cmp_opd(o, od):
+    """`_compare` as a pre-processing of the operands of broadcast_binary_op: a Python scalar is left as it is (the
+    model sees a literal already of the comparison type); a Python float next to a single-precision operand is
+    converted by NumPy first"""
+    if o[0] != "py":
+        return _opd_wire(o, False), _opd_wire(o, True)
+    v = o[1]
+    single = od in (np.dtype("float32"), np.dtype("complex64"), np.dtype("float16"))
+    if (isinstance(v, complex) and od.kind == "c") or (isinstance(v, float) and single):
+        v = od.type(v)          # a Python complex is sized, a Python float next to single precision is single
+    w = f"(np {ser.const(v)} {od.name})"
+    return w, w
+
+
 def _lean_to_float(v):
     if v is None:
         return None
@@ -855,6 +887,24 @@ def batch_binop(ctx, prop="C02"):
                 for sc in scalars:
                     combos.append((("arr", s, d, _api_data(s, d, 2)), sc))
                     combos.append((sc, ("arr", s, d, _api_data(s, d, 2))))
+        if label in _CMP_OPS:
+            # comparisons are made in NumPy's promoted type: operands of mixed signedness / width / kind, typed and
+            # Python scalars outside the other operand's range, Python floats next to single precision
+            def udata(shape, dt, off):
+                d = _api_data(shape, dt, off)
+                return np.abs(d).astype(dt) if np.dtype(dt).kind == "u" else d
+            for (d1, d2) in [("uint32", "int8"), ("int8", "uint32"), ("uint64", "int64"), ("int16", "uint16"),
+                             ("uint8", "uint8"), ("float32", "int64"), ("int64", "float32"), ("uint8", "float32"),
+                             ("uint64", "float64"), ("float32", "float32"), ("bool", "uint8"), ("complex64", "float64")]:
+                if label not in ("equal", "not_equal") and "complex" in d1 + d2:
+                    continue
+                for (s1, s2) in shape_pairs[:5]:
+                    combos.append((("arr", s1, d1, udata(s1, d1, 1)), ("arr", s2, d2, udata(s2, d2, 4))))
+            for d in ("uint8", "uint32", "uint64", "int8", "float32"):
+                for sc in [("py", -1), ("py", 300), ("py", 2 ** 40), ("py", 0.5), ("py", 0.1), ("np", np.int8(-1)),
+                           ("np", np.uint64(3)), ("np", np.float32(0.5)), ("np", np.float64(0.1)), ("py", True), ("py", 0.5 + 2j)]:
+                    combos.append((("arr", (2, 3), d, udata((2, 3), d, 2)), sc))
+                    combos.append((sc, ("arr", (3,), d, udata((3,), d, 2))))
         for o1, o2 in combos:
             cases.append((label, mop, ptf, npf, cast, is_pow, o1, o2))
     queries, owners = [], []
@@ -889,11 +939,17 @@ def batch_binop(ctx, prop="C02"):
             owners.append(("meta", params, expr_s, None, real))
             continue
         bs = " ".join(ser.binding(nm, arr) for nm, arr in sorted(binds.items()))
-        queries.append(f"(lower binop {mop} {_opd_wire(o1, False)} {_opd_wire(o2, False)} {flags})")
+        w1, w2, v1, v2 = _opd_wire(o1, False), _opd_wire(o2, False), _opd_wire(o1, True), _opd_wire(o2, True)
+        if label in _CMP_OPS:
+            od = _cmp_operand_dtype(o1, o2)
+            if od is not None:
+                (w1, v1), (w2, v2) = _cmp_opd(o1, od), _cmp_opd(o2, od)
+                flags = f"{od.name} #t #f"
+        queries.append(f"(lower binop {mop} {w1} {w2} {flags})")
         owners.append(("text", params, expr_s, None, real))
         queries.append(f"(evalil {ser.shape(real.shape)} {expr_s} ({bs}))")
         owners.append(("eval", params, expr_s, expected, real))
-        queries.append(f"(spec binop {mop} {_opd_wire(o1, True)} {_opd_wire(o2, True)} {flags})")
+        queries.append(f"(spec binop {mop} {v1} {v2} {flags})")
         owners.append(("spec", params, expr_s, expected, real))
     # where: three operands; neg / logical_not / elementwise functions: one or two
     w_shapes = [((2, 1), (2, 3), (3,)), ((2, 3), (2, 3), (2, 3)), ((), (2, 3), ()), ((3,), (), (2, 1))]
